@@ -716,3 +716,25 @@ def cfg_of(model: Model, func: FuncInfo) -> CFG:
         c = CFG(model, func)
         _cfg_cache[key] = c
     return c
+
+
+
+def returned_values(cfg: CFG) -> t.List[t.Tuple[ast.AST, Node]]:
+    """(expression, node it is evaluated at) of everything the function may return: the value of each ``return``, and - when that is
+    a local assigned in several arms (``data = ...`` / ``data = ...`` / ``return data``) - each of the assigned expressions at its own
+    assignment, followed transitively."""
+    rd = cfg.reaching()
+    out: t.List[t.Tuple[ast.AST, Node]] = []
+
+    def follow(e: ast.AST, n: Node, depth: int) -> None:
+        if isinstance(e, ast.Name) and rd.is_local(e.id) and depth < 4:
+            defs = rd.at(n, e.id)
+            if len(defs) > 1 and all(d.kind in ('assign', 'walrus') and d.value is not None and not d.path for d in defs):
+                for d in defs:
+                    follow(d.value, d.node, depth + 1)
+                return
+        out.append((e, n))
+    for n in cfg.live_nodes():
+        if n.kind == 'return' and n.ast is not None and n.ast.value is not None:
+            follow(n.ast.value, n, 0)
+    return out
